@@ -215,7 +215,7 @@ def _job(job) -> List[Dict[str, Any]]:
         f = d["func"]
         mm, _, qn = f.partition("::")
         c = f"{d['kind']}: {norm_text(d['node'], 80)}"
-        inst("R10.2", "HOLDS" if d["ok"] else "VIOLATED", c, "" if d["ok"] else "; ".join(d["msgs"]), {"site": d["info"].get("msg", "")}, mm, qn, getattr(d["node"], "lineno", 0))
+        inst("R10.2", "HOLDS" if d["ok"] else ("UNDECIDED" if d.get("weak") else "VIOLATED"), c, "" if d["ok"] else "; ".join(d["msgs"]), {"site": d["info"].get("msg", "")}, mm, qn, getattr(d["node"], "lineno", 0))
     return out
 
 
